@@ -96,7 +96,7 @@ type tamperDef struct {
 
 var tampers = []tamperDef{
 	{"none", 'A'}, {"none", 'A'}, {"none", 'A'}, {"none", 'A'}, {"none", 'A'}, {"none", 'A'},
-	{"sig-flip", 'B'}, {"sig-trunc", 'B'}, {"sig-extend", 'B'}, {"sig-empty", 'B'}, {"sig-dropped", 'B'},
+	{"sig-flip", 'B'}, {"sig-trunc", 'B'}, {"sig-extend", 'B'}, {"sig-halves-repadded", 'B'}, {"sig-empty", 'B'}, {"sig-dropped", 'B'},
 	{"payload-subst", 'B'}, {"header-subst-none", 'B'},
 	{"dot-trailing", 'B'}, {"dot-leading", 'B'}, {"dot-double", 'B'}, {"dot-extra-segment", 'B'},
 	{"nonalpha-sig-pad", 'B'}, {"nonalpha-sig-newline", 'B'}, {"nonalpha-sig-space", 'B'}, {"nonalpha-sig-stdalphabet", 'B'}, {"nonalpha-sig-unicode", 'B'}, {"nonalpha-payload-newline", 'B'},
@@ -437,6 +437,19 @@ func (w *world) issue(tp *tokenPlan) {
 			model.SignedBy = ""
 		case "sig-extend":
 			compact = h + "." + p + "." + b64(append(sigBytes, byte(tp.p[0])))
+			model.SignedBy = ""
+		case "sig-halves-repadded":
+			// the two halves of the signature, each left-padded with zero bytes: for ECDSA this is the same (r, s) written
+			// at the width of a larger curve (RFC 7518 3.4: the signature MUST be exactly 2 x the curve's octet length);
+			// for every other algorithm it is simply a signature of the wrong length
+			pad := []int{16, 34, 1}[tp.p[0]%3]
+			half := len(sigBytes) / 2
+			re := make([]byte, 0, len(sigBytes)+2*pad)
+			re = append(re, make([]byte, pad)...)
+			re = append(re, sigBytes[:half]...)
+			re = append(re, make([]byte, pad)...)
+			re = append(re, sigBytes[half:]...)
+			compact = h + "." + p + "." + b64(re)
 			model.SignedBy = ""
 		case "sig-empty":
 			compact = h + "." + p + "."
